@@ -207,7 +207,8 @@ Definition unop_R (f : unop) (x : R) : R :=
   | U_sin => sin x | U_cos => cos x | U_tan => tan x | U_asin => asin_R x
   | U_acos => acos_R x | U_atan => atan x | U_sinh => sinh x | U_cosh => cosh x
   | U_tanh => tanh x | U_asinh => asinh_R x | U_acosh => acosh_R x | U_atanh => atanh_R x
-  | U_magnitude => Rabs x | U_mag_squared => x * x | U_phase => 0
+  | U_magnitude => Rabs x | U_mag_squared => x * x
+  | U_phase => if Rlt_dec x 0 then PI else 0        (* cmath.phase of a real number *)
   | U_neg => - x | U_pos => x
   end.
 
@@ -274,7 +275,7 @@ Section BinDer.
   Qed.
 
   (* atan2(y, x) on the half plane x > 0 *)
-  Lemma bd_atan2 l r : 0 < r ->
+  Lemma bd_atan2_right l r : 0 < r ->
     bin_der atan2_R l r (r / (r * r + l * l)) (- l / (r * r + l * l)).
   Proof.
     intros Hr A B t0 da db EA EB HA HB.
@@ -292,6 +293,83 @@ Section BinDer.
       + replace (Derive (fun x => A x) t0) with da by (symmetry; apply is_derive_unique; exact HA).
         replace (Derive (fun x => B x) t0) with db by (symmetry; apply is_derive_unique; exact HB).
         rewrite EA, EB. field. split; nra.
+  Qed.
+
+  (* the upper and lower half planes: atan2(y, x) = +-pi/2 - atan(x / y) *)
+  Lemma atan_inv_neg x : x < 0 -> atan (/ x) = - PI / 2 - atan x.
+  Proof.
+    intros Hx. replace (/ x) with (- / (- x)) by (field; lra).
+    rewrite atan_opp, atan_inv by lra. rewrite atan_opp. lra.
+  Qed.
+
+  Lemma atan2_upper y x : 0 < y -> atan2_R y x = PI / 2 - atan (x / y).
+  Proof.
+    intros Hy. unfold atan2_R.
+    destruct (Rlt_dec 0 x) as [Hx|Hx].
+    - replace (y / x) with (/ (x / y)) by (field; lra).
+      rewrite atan_inv; [reflexivity|]. apply Rdiv_lt_0_compat; lra.
+    - destruct (Rlt_dec x 0) as [Hx'|Hx'].
+      + destruct (Rle_dec 0 y); [|lra].
+        replace (y / x) with (/ (x / y)) by (field; lra).
+        rewrite atan_inv_neg; [lra|].
+        replace (x / y) with (- ((- x) / y)) by (field; lra).
+        assert (0 < - x / y) by (apply Rdiv_lt_0_compat; lra). lra.
+      + assert (x = 0) by lra. subst x. destruct (Rlt_dec 0 y); [|lra].
+        replace (0 / y) with 0 by (field; lra). rewrite atan_0. lra.
+  Qed.
+
+  Lemma atan2_lower y x : y < 0 -> atan2_R y x = - PI / 2 - atan (x / y).
+  Proof.
+    intros Hy. unfold atan2_R.
+    destruct (Rlt_dec 0 x) as [Hx|Hx].
+    - replace (y / x) with (/ (x / y)) by (field; lra).
+      rewrite atan_inv_neg; [reflexivity|].
+      replace (x / y) with (- (x / - y)) by (field; lra).
+      assert (0 < x / - y) by (apply Rdiv_lt_0_compat; lra). lra.
+    - destruct (Rlt_dec x 0) as [Hx'|Hx'].
+      + destruct (Rle_dec 0 y); [lra|].
+        replace (y / x) with (/ (x / y)) by (field; lra).
+        rewrite atan_inv; [lra|].
+        replace (x / y) with ((- x) / (- y)) by (field; lra). apply Rdiv_lt_0_compat; lra.
+      + assert (x = 0) by lra. subst x. destruct (Rlt_dec 0 y); [lra|]. destruct (Rlt_dec y 0); [|lra].
+        replace (0 / y) with 0 by (field; lra). rewrite atan_0. lra.
+  Qed.
+
+  Lemma bd_atan2_chart (c : R) (sgn : R -> Prop) l r :
+    (forall y x, sgn y -> atan2_R y x = c - atan (x / y)) ->
+    (forall y, sgn y -> y <> 0) -> sgn l ->
+    (forall (B : R -> R) t0, continuous B t0 -> sgn (B t0) -> locally t0 (fun t => sgn (B t))) ->
+    bin_der atan2_R l r (r / (r * r + l * l)) (- l / (r * r + l * l)).
+  Proof.
+    intros Hchart Hnz Hl Hopen A B t0 da db EA EB HA HB.
+    assert (HA' : ex_derive A t0) by (eexists; eauto).
+    assert (HB' : ex_derive B t0) by (eexists; eauto).
+    apply (is_derive_ext_loc (fun t => c - atan (B t / A t))).
+    - pose proof (ex_derive_continuous A t0 HA') as Hc.
+      assert (Hloc : locally t0 (fun t => sgn (A t))) by (apply Hopen; [exact Hc | rewrite EA; exact Hl]).
+      revert Hloc. apply filter_imp. intros t Ht. symmetry. apply Hchart. exact Ht.
+    - assert (Hl0 : l <> 0) by (apply Hnz; exact Hl).
+      auto_derive.
+      + repeat split; auto. rewrite EA; exact Hl0.
+      + replace (Derive (fun x => A x) t0) with da by (symmetry; apply is_derive_unique; exact HA).
+        replace (Derive (fun x => B x) t0) with db by (symmetry; apply is_derive_unique; exact HB).
+        rewrite EA, EB. field. split; [nra|exact Hl0].
+  Qed.
+
+  Lemma bd_atan2 l r : 0 < r \/ l <> 0 ->
+    bin_der atan2_R l r (r / (r * r + l * l)) (- l / (r * r + l * l)).
+  Proof.
+    intros [Hr|Hl]; [apply bd_atan2_right; exact Hr|].
+    destruct (Rlt_dec 0 l) as [Hp|Hp].
+    - apply (bd_atan2_chart (PI / 2) (fun y => 0 < y)); auto.
+      + intros; apply atan2_upper; auto.
+      + intros; lra.
+      + intros B t0 Hc Hs. specialize (Hc (fun y : R => 0 < y)). apply Hc. apply (open_gt 0 (B t0)). exact Hs.
+    - assert (Hn : l < 0) by lra.
+      apply (bd_atan2_chart (- PI / 2) (fun y => y < 0)); auto.
+      + intros; apply atan2_lower; auto.
+      + intros; lra.
+      + intros B t0 Hc Hs. specialize (Hc (fun y : R => y < 0)). apply Hc. apply (open_lt 0 (B t0)). exact Hs.
   Qed.
 End BinDer.
 
@@ -462,33 +540,33 @@ Ltac atan2_start H :=
   rewrite !pow_R_2 in H;
   cbv beta iota zeta delta [bind] in H.
 
-Lemma g_atan2_re_re_ok l r res : 0 < r ->
+Lemma g_atan2_re_re_ok l r res : 0 < r \/ l <> 0 ->
   g_atan2_re_re RNum l r = Ok res -> sem_ok atan2_R true true l r res.
 Proof.
   intros Hr H. unfold g_atan2_re_re in H. atan2_start H.
-  assert (Hd : r * r + l * l <> 0) by nra.
+  assert (Hd : r * r + l * l <> 0) by (destruct Hr; nra).
   destruct (Req_EM_T (r * r + l * l) (IZR 0 * powerRZ 2 0)) as [E|E]; [simpl in E; lra|].
   destruct (Req_EM_T (r * r + l * l) 0); [tauto|].
   cbv beta iota zeta delta [bind] in H. injection H as H; subst res.
   split4. apply bd_atan2; auto.
 Qed.
 
-Lemma g_atan2_x_re_ok l r res : 0 < r ->
+Lemma g_atan2_x_re_ok l r res : 0 < r \/ l <> 0 ->
   g_atan2_x_re RNum l r = Ok res -> sem_ok atan2_R false true l r res.
 Proof.
   intros Hr H. unfold g_atan2_x_re in H. atan2_start H.
-  assert (Hd : r * r + l * l <> 0) by nra.
+  assert (Hd : r * r + l * l <> 0) by (destruct Hr; nra).
   destruct (Req_EM_T (r * r + l * l) (IZR 0 * powerRZ 2 0)) as [E|E]; [simpl in E; lra|].
   destruct (Req_EM_T (r * r + l * l) 0); [tauto|].
   cbv beta iota zeta delta [bind] in H. injection H as H; subst res.
   split; auto. split; auto. exists (r / (r * r + l * l)). split; [apply bd_atan2; auto|discriminate].
 Qed.
 
-Lemma g_atan2_re_x_ok l r res : 0 < r ->
+Lemma g_atan2_re_x_ok l r res : 0 < r \/ l <> 0 ->
   g_atan2_re_x RNum l r = Ok res -> sem_ok atan2_R true false l r res.
 Proof.
   intros Hr H. unfold g_atan2_re_x in H. atan2_start H.
-  assert (Hd : r * r + l * l <> 0) by nra.
+  assert (Hd : r * r + l * l <> 0) by (destruct Hr; nra).
   destruct (Req_EM_T (r * r + l * l) (IZR 0 * powerRZ 2 0)) as [E|E]; [simpl in E; lra|].
   destruct (Req_EM_T (r * r + l * l) 0); [tauto|].
   cbv beta iota zeta delta [bind] in H. injection H as H; subst res.
@@ -665,8 +743,12 @@ Section Main.
 End Main.
 
 (* ---------- the generated operator table, by operand kinds ---------- *)
+(* phase(x) of an uncertain REAL is the constant 0 in lib.py: right for x > 0 only *)
+Definition reg_un (f : unop) (x : R) : Prop :=
+  match f with U_phase => 0 < x | _ => True end.
+
 Definition reg_bin (f : binop) (l r : R) : Prop :=
-  match f with B_pow => 0 < l | B_atan2 => 0 < r | _ => True end.
+  match f with B_pow => 0 < l | B_atan2 => 0 < r \/ l <> 0 | _ => True end.
 
 Lemma g_bin_uu_ok f l r res : reg_bin f l r ->
   g_bin_uu RNum f l r = Ok res -> sem_ok (binop_R f) true true l r res.
@@ -719,7 +801,7 @@ Section Sem.
   Fixpoint regular (e : expr) : Prop :=
     match e with
     | EVar _ | ENum _ => True
-    | EUn _ e1 => regular e1
+    | EUn f e1 => regular e1 /\ reg_un f (sem e1 e0)
     | EBin f e1 e2 => regular e1 /\ regular e2 /\ reg_bin f (sem e1 e0) (sem e2 e0)
     end.
 End Sem.
@@ -760,6 +842,7 @@ Section ChainTheorem.
     - (* ENum *)
       simpl in Hev. injection Hev as <-. apply denop_num.
     - (* EUn *)
+      destruct Hreg as [Hreg Hru].
       simpl in Hev. destruct (eval_un RNum s e1) as [a|] eqn:E1; [|discriminate].
       simpl in Hev. destruct a as [oa|va]; [|discriminate].
       specialize (IH1 _ Hreg eq_refl). simpl in IH1.
@@ -779,11 +862,26 @@ Section ChainTheorem.
         apply (den_merge_w U I e0 oa oa (sem Fi e1) (sem Fi e1) Rmult); auto.
         * rewrite Va; reflexivity.
         * rewrite <- Va. apply bd_mul.
-      + (* phase *)
+      + (* phase: the code returns the constant 0, which is cmath.phase only for x > 0 *)
         simpl in Eg. injection Eg as <-. simpl in Er.
         injection Er as <-. simpl in Hev. injection Hev as <-. simpl.
-        unfold mk_constant. cbn [dyad RNum].
-        eapply den_ext; [|apply den_const]. intros; simpl. ring.
+        unfold mk_constant. cbn [dyad RNum]. cbn [reg_un] in Hru.
+        replace (IZR 0 * powerRZ 2 0) with 0 by (simpl; ring).
+        destruct IH1 as [Hv Hsu Hsd Hku Hkd Hder].
+        split; cbn [ux uc dc]; auto; try (intros k []).
+        * destruct (Rlt_dec (sem Fi e1 e0) 0); [lra|simpl; ring].
+        * intros k. exists 0. split.
+          -- destruct (Hder k) as [D [HD _]].
+             apply (is_derive_ext_loc (fun _ => 0)); [|auto_derive; auto].
+             set (G := fun t : R => sem Fi e1 (upd e0 k t)) in *.
+             assert (HEX : ex_derive G (e0 k)) by (eexists; exact HD).
+             pose proof (ex_derive_continuous G (e0 k) HEX) as Hc.
+             assert (Hloc : locally (e0 k) (fun t => 0 < G t)).
+             { specialize (Hc (fun y : R => 0 < y)). apply Hc.
+               apply (open_gt 0 (G (e0 k))). unfold G. rewrite upd_same. exact Hru. }
+             revert Hloc. apply filter_imp. intros t Ht.
+             unfold G in Ht. destruct (Rlt_dec (sem Fi e1 (upd e0 k t)) 0); [lra|reflexivity].
+          -- unfold comp; cbn [uc dc]. rewrite !get0_nil. ring.
       + (* pos *)
         simpl in Eg. injection Eg as <-. simpl in Er.
         injection Er as <-. simpl in Hev. injection Hev as <-. simpl.
